@@ -349,3 +349,143 @@ def edge_dominates(cfg, fn, br, label, ins):
     if not cfg.dominates(tb, ins.blk): return False
     # the target must be entered only through this edge (otherwise dominance of the block says nothing about the edge)
     return all(p is br.blk for p in cfg.pred[tb])
+
+# ------------------------------------------------------------------ tiny concrete evaluator
+
+class EvalUnknown(Exception):
+    pass
+
+def _signed(v, w):
+    v &= (1 << w) - 1
+    return v - (1 << w) if v >> (w - 1) else v
+
+class MiniEval:
+    """Concrete evaluation of a few hundred IR instructions with chosen memory cells concrete and everything else
+    symbolic.  A branch on a symbolic value forks.  Used to ask "what does this code do for status word 0x0100?" -
+    nothing is executed, the IR is interpreted.
+
+    Values: python int (signed, normalised to the instruction's width) or ('sym', text).
+    hook(ins, argvals, mem) -> value | None: called for every call; None = opaque (symbolic result, memory untouched).
+    Outcomes: list of ('ret', value, mem) | ('exit', callee, argvals, mem) | ('dead', mem)."""
+    def __init__(s, prog, hook=None, max_steps=40000, max_paths=256):
+        s.prog = prog; s.hook = hook; s.max_steps = max_steps; s.max_paths = max_paths
+        s.steps = 0; s.paths = 0
+        s.nr = prog.noreturn()
+    def key(s, res, ptr):
+        return flow._freeze(res.loc(ptr))
+    def val(s, v, regs):
+        if v[0] == 'int': return v[1]
+        if v[0] == 'null': return 0
+        if v[0] == 'reg': return regs.get(v[1], ('sym', '%' + v[1]))
+        return ('sym', str(v)[:40])
+    def run(s, fn, blk, idx, regs, mem, depth=0):
+        """evaluate fn from blk.ins[idx]; returns outcomes"""
+        res = Resolver(fn)
+        out = []
+        work = [(blk, idx, None, dict(regs), dict(mem))]
+        while work:
+            blk, idx, prev, regs, mem = work.pop()
+            s.paths += 1
+            if s.paths > s.max_paths: raise EvalUnknown('more than %d paths' % s.max_paths)
+            while True:
+                nxt = None; done = False
+                for x in blk.ins[idx:]:
+                    s.steps += 1
+                    if s.steps > s.max_steps: raise EvalUnknown('more than %d steps' % s.max_steps)
+                    op = x.op
+                    if op == 'phi':
+                        for v, lab in zip(x.ops, x.cases):
+                            if prev is not None and lab == prev.name: regs[x.res] = s.val(v, regs)
+                    elif op == 'alloca': pass
+                    elif op == 'load':
+                        k = s.key(res, x.ops[0])
+                        regs[x.res] = mem[k] if k in mem else ('sym', ir.loc_str(res.loc(x.ops[0])))
+                    elif op == 'store':
+                        mem[s.key(res, x.ops[1])] = s.val(x.ops[0], regs)
+                    elif op in ('sext', 'bitcast', 'ptrtoint', 'inttoptr', 'freeze'):
+                        regs[x.res] = s.val(x.ops[0], regs)
+                    elif op == 'zext':
+                        v = s.val(x.ops[0], regs)
+                        if isinstance(v, int) and x.srcty is not None and x.srcty.k == 'int': v &= (1 << x.srcty.a) - 1
+                        regs[x.res] = v
+                    elif op == 'trunc':
+                        v = s.val(x.ops[0], regs)
+                        if isinstance(v, int) and x.ty is not None and x.ty.k == 'int':
+                            v = (v & 1) if x.ty.a == 1 else _signed(v, x.ty.a)
+                        regs[x.res] = v
+                    elif op in ('add', 'sub', 'mul', 'and', 'or', 'xor', 'shl', 'ashr', 'lshr', 'sdiv', 'srem', 'udiv', 'urem'):
+                        a = s.val(x.ops[0], regs); b = s.val(x.ops[1], regs)
+                        w = x.ty.a if x.ty is not None and x.ty.k == 'int' else 64
+                        if isinstance(a, int) and isinstance(b, int):
+                            ua = a & ((1 << w) - 1); ub = b & ((1 << w) - 1)
+                            try:
+                                r = {'add': a + b, 'sub': a - b, 'mul': a * b, 'and': ua & ub, 'or': ua | ub, 'xor': ua ^ ub,
+                                     'shl': ua << (ub % w), 'ashr': _signed(ua, w) >> (ub % w), 'lshr': ua >> (ub % w),
+                                     'sdiv': int(a / b) if b else 0, 'srem': a - int(a / b) * b if b else 0,
+                                     'udiv': ua // ub if ub else 0, 'urem': ua % ub if ub else 0}[op]
+                            except Exception: r = ('sym', op)
+                            regs[x.res] = (r & 1) if (isinstance(r, int) and w == 1) else (_signed(r, w) if isinstance(r, int) else r)
+                        elif op == 'and' and 0 in (a, b): regs[x.res] = 0
+                        elif op == 'mul' and 0 in (a, b): regs[x.res] = 0
+                        else: regs[x.res] = ('sym', '(%s)' % op)
+                    elif op == 'icmp':
+                        a = s.val(x.ops[0], regs); b = s.val(x.ops[1], regs)
+                        if isinstance(a, int) and isinstance(b, int):
+                            w = x.ty.a if x.ty is not None and x.ty.k == 'int' else 64
+                            sa, sb = _signed(a, w), _signed(b, w); ua, ub = a & ((1 << w) - 1), b & ((1 << w) - 1)
+                            regs[x.res] = int({'eq': ua == ub, 'ne': ua != ub, 'sgt': sa > sb, 'sge': sa >= sb, 'slt': sa < sb, 'sle': sa <= sb,
+                                               'ugt': ua > ub, 'uge': ua >= ub, 'ult': ua < ub, 'ule': ua <= ub}[x.pred])
+                        else: regs[x.res] = ('sym', 'icmp')
+                    elif op == 'select':
+                        c = s.val(x.ops[0], regs)
+                        if isinstance(c, int): regs[x.res] = s.val(x.ops[1] if c else x.ops[2], regs)
+                        else:
+                            a = s.val(x.ops[1], regs); b = s.val(x.ops[2], regs)
+                            regs[x.res] = a if a == b else ('sym', 'select')
+                    elif op == 'getelementptr': regs[x.res] = ('sym', 'addr')
+                    elif op in ('call', 'invoke'):
+                        av = [s.val(a, regs) for a in x.ops]
+                        if isinstance(x.callee, str) and x.callee in s.nr:
+                            out.append(('exit', x.callee, av, mem)); done = True; break
+                        r = s.hook(x, av, mem) if s.hook is not None else None
+                        g = s.prog.fn(x.callee) if isinstance(x.callee, str) else None
+                        if r is None and g is not None and g.blocks and depth < 2 and any(isinstance(a, int) for a in av) and sum(len(b.ins) for b in g.blocks) <= 120:
+                            # small helper with a concrete argument (a status predicate): evaluate it
+                            cregs = {}
+                            for (ty, nm), a in zip(g.params, av):
+                                if nm is not None: cregs[nm] = a
+                            subs = s.run(g, g.entry, 0, cregs, mem, depth + 1)
+                            rets = [o for o in subs if o[0] == 'ret']
+                            exits = [o for o in subs if o[0] == 'exit']
+                            out += exits
+                            if not rets: done = True; break
+                            for o in rets[1:]:
+                                r2 = dict(regs); r2[x.res] = o[1]
+                                work.append((blk, x.idx + 1, prev, r2, dict(o[2])))
+                            regs[x.res] = rets[0][1]; mem = dict(rets[0][2])
+                        elif x.res is not None:
+                            regs[x.res] = r if r is not None else ('sym', 'call %s' % x.callee)
+                    elif op == 'ret':
+                        out.append(('ret', s.val(x.ops[0], regs) if x.ops else None, mem)); done = True; break
+                    elif op == 'unreachable':
+                        out.append(('dead', mem)); done = True; break
+                    elif op == 'br':
+                        if not x.ops: nxt = [x.targets[0]]
+                        else:
+                            c = s.val(x.ops[0], regs)
+                            nxt = [x.targets[0] if c else x.targets[1]] if isinstance(c, int) else list(dict.fromkeys(x.targets))
+                        break
+                    elif op == 'switch':
+                        c = s.val(x.ops[0], regs)
+                        if isinstance(c, int):
+                            t = [lab for v, lab in x.cases if v == c]
+                            nxt = [t[0] if t else x.callee]
+                        else: nxt = list(dict.fromkeys(x.targets))
+                        break
+                    else:
+                        if x.res is not None: regs[x.res] = ('sym', op)
+                if done or nxt is None: break
+                for lab in nxt[1:]:
+                    work.append((fn.bmap[lab], 0, blk, dict(regs), dict(mem)))
+                prev = blk; blk = fn.bmap[nxt[0]]; idx = 0
+        return out
